@@ -104,11 +104,11 @@ def side_file_views(world):
     from rope.base.serializer import json_to_python
 
     res = {}
-    hp = os.path.join(world.root, ROPEFOLDER, "history.json")
+    hp = os.path.join(world.root, world.ropefolder or ROPEFOLDER, "history.json")
     if os.path.exists(hp):
         with open(hp) as f:
             res["history"] = json.loads(f.read())
-    op = os.path.join(world.root, ROPEFOLDER, "objectdb.json")
+    op = os.path.join(world.root, world.ropefolder or ROPEFOLDER, "objectdb.json")
     if os.path.exists(op):
         with open(op) as f:
             raw = json.loads(f.read())
@@ -166,6 +166,8 @@ class ReopenEngine(Engine):
         swarm["late_enable_objectdb"] = rng.random() < 0.15
         # the deprecated way of configuring the store: "memory" still means "as save_objectdb says"
         swarm["objectdb_type"] = rng.choice([None] * 8 + ["memory", "shelve"])
+        # a rope folder with another name than the default one (created in the first session)
+        swarm["ropefolder"] = rng.choice([None] * 6 + [".ropedata", ".cache/rope"])
         swarm["weights"]["set_limit"] = 0  # twins diverge once one of them is truncated at save: see the epilogue instead
         swarm["limit_epilogue"] = rng.random() < 0.3
         if swarm["validate_objectdb"]:
@@ -292,8 +294,13 @@ class ReopenEngine(Engine):
         late = bool(swarm.get("late_enable_objectdb"))
         first = dict(prefs, save_objectdb=False) if late else prefs
         lib = SIBLING_LIB if swarm.get("sibling_lib") else None
-        A = World(trace["init"], limit=limit, ropefolder=ROPEFOLDER, prefs=first, tag="c12a-", lib=lib)
-        B = World(trace["init"], limit=limit, ropefolder=ROPEFOLDER, prefs=first, tag="c12b-", lib=lib)
+        rf = swarm.get("ropefolder") or ROPEFOLDER
+        A = World(trace["init"], limit=limit, ropefolder=rf, prefs=first, tag="c12a-", lib=lib)
+        B = World(trace["init"], limit=limit, ropefolder=rf, prefs=first, tag="c12b-", lib=lib)
+        if len(A.project.history.undo_list) or len(B.project.history.undo_list):
+            out.violate("history_not_empty_in_new_project", {"op": "open", "ropefolder_default": rf == ROPEFOLDER},
+                        {"undo_list": [c.description for c in B.project.history.undo_list],
+                         "msg": "a project opened for the first time already has something to undo"}, where=0)
         if late:
             # the preference is switched on while the project is open (it is a live preference)
             for w in (A, B):
